@@ -7,7 +7,9 @@ Driver of the `karith` family (arithmetic kernels).  Stateless protocol
 
 * dev: `naive` | `eigen` (selects the generated formula; the hand-modelled loop
   kernels are the same function for both)
-* tensor: `T:<d0,d1,…>/<batch>:<v0,v1,…>`, passed through the Shape constructor
+* tensor: `T:<d0,d1,…>/<batch>:<v0,v1,…>`, passed through the Shape constructor;
+  `O:…` is a tensor that lives on the OTHER backend's device: every entry point starts
+  with CHECK_DEVICE on each operand, so a well-formed line with such an operand is `err`
 * value: a decimal integer, or `x<16 hex digits>` = the bits of a double
 * float argument: `K:<value>`; integer arguments: decimals
 
@@ -157,7 +159,7 @@ structure RawT where
   vals : List String
 
 def parseRawT (t : String) : Option RawT :=
-  if !t.startsWith "T:" then none else
+  if !(t.startsWith "T:" || t.startsWith "O:") then none else
   match (t.drop 2).toString.splitOn ":" with
   | [sh, vs] =>
     match sh.splitOn "/" with
@@ -175,19 +177,22 @@ structure Line where
   ts : List RawT
   ks : List String
   ns : List Int
+  other : Bool
+
+def isTensorTok (w : String) : Bool := w.startsWith "T:" || w.startsWith "O:"
 
 def parseLine (line : String) : Option Line :=
   match words line with
   | dev :: kern :: rest =>
     if dev ≠ "naive" ∧ dev ≠ "eigen" then none else
-    let tt := rest.takeWhile (·.startsWith "T:")
-    let r1 := rest.dropWhile (·.startsWith "T:")
+    let tt := rest.takeWhile isTensorTok
+    let r1 := rest.dropWhile isTensorTok
     let kt := r1.takeWhile (·.startsWith "K:")
     let r2 := r1.dropWhile (·.startsWith "K:")
     do
       let ts ← tt.mapM parseRawT
       let ns ← r2.mapM String.toInt?
-      pure ⟨dev, kern, ts, kt.map fun k => (k.drop 2).toString, ns⟩
+      pure ⟨dev, kern, ts, kt.map fun k => (k.drop 2).toString, ns, tt.any (·.startsWith "O:")⟩
   | _ => none
 
 /-- kernels that use ring operations and comparisons only -/
@@ -395,10 +400,8 @@ def runGrad (dev base : String) (ts : List (Tensor Float)) (ks : List Float) (ns
     | none => .bad
   | _, _, _ => .bad
 
-def exec (line : String) : String :=
-  match parseLine line with
-  | none => "bad-op"
-  | some l =>
+/-- the line as if every operand lived on `<dev>` -/
+def execSameDev (l : Line) : String :=
     match strip l.kern "_grad" with
     | some base =>
       match l.ks.mapM floatDom.parse, mkTensors floatDom l.ts with
@@ -407,6 +410,14 @@ def exec (line : String) : String :=
       | _, _ => "bad-op"
     | none =>
       if useInt l then execIn intDom l else execIn floatDom l
+
+def exec (line : String) : String :=
+  match parseLine line with
+  | none => "bad-op"
+  | some l =>
+    let r := execSameDev l
+    -- CHECK_DEVICE precedes every shape check: a call with a foreign operand throws
+    if l.other && r != "bad-op" then "err" else r
 
 def step (_ : Unit) (line : String) : Unit × String := ((), exec line)
 
